@@ -6,6 +6,9 @@ Real functions lowered on every run (src/client/QXmppOutgoingClient.cpp unless n
   the continuation lambda of handleStarttls, XmppSocket::socket (XmppSocket.h), StarttlsProceed::fromDom (base/Stream.cpp),
   QXmppConfiguration::{streamSecurityMode, use*Authentication} (QXmppConfiguration.cpp),
   QXmppStreamFeatures::{tlsMode, nonSaslAuthMode, bindMode, authMechanisms, sasl2Feature, isStreamFeatures} (base/QXmppStreamFeatures.cpp).
+Keep-alive sender outside the negotiation code (XEP-0199): PingManager::{onDataReceived, sendPing}, the three lambdas of PingManager's
+  constructor (roles taken from what each is wired to: pingTimer.timeout / connected / disconnected / other),
+  QXmppOutgoingClient::throwKeepAliveError, QXmppConfiguration::{domain, keepAliveInterval, keepAliveTimeout}; QTimer = armed / not armed.
 """
 import os, re, json
 from concurrent.futures import ThreadPoolExecutor
@@ -145,6 +148,155 @@ def call_site_inventory():
     return sites, others
 
 
+PING_MEMBERS = ('pingTimer', 'timeoutTimer')
+# what the (unverified) constructor body itself may do with the timers: wiring only, nothing that arms them
+CTOR_BODY_OK = {('pingTimer', 'callOnTimeout'), ('timeoutTimer', 'callOnTimeout'), ('timeoutTimer', 'setSingleShot')}
+# functions whose whole body is under contract here: whatever they do with the timers is decided by their postconditions
+PING_VERIFIED = {('onDataReceived', False), ('sendPing', False), ('PingManager', True)}
+
+
+def ping_ctor_slots(ctor):
+    """roles of the lambdas of PingManager's constructor, derived from what each one is WIRED to (not from source order):
+         pingTimer->callOnTimeout(ctx, lambda)                          -> 'timeout'       (runs only while the ping timer is armed)
+         QObject::connect(q, &QXmppOutgoingClient::connected, ctx, lambda)    -> 'connected'     (runs only with the session started, C10)
+         QObject::connect(q, &QXmppOutgoingClient::disconnected, ctx, lambda) -> 'disconnected'
+         anything else                                                  -> 'other'         (no premise about the session)
+       Every lambda of the constructor must be wired by one of these statements, otherwise Unsupported (exit 2)."""
+    lambdas = []
+
+    def collect(n):
+        if n.get('kind') == 'LambdaExpr':
+            lambdas.append(n)
+            return
+        for c in n.get('inner', []):
+            if isinstance(c, dict):
+                collect(c)
+    collect(ctor)
+    body = [c for c in ctor['inner'] if c.get('kind') == 'CompoundStmt'][0]
+
+    def strip(n):
+        while n.get('kind') in ('ExprWithCleanups', 'CXXBindTemporaryExpr', 'MaterializeTemporaryExpr', 'ImplicitCastExpr', 'ParenExpr', 'CXXConstructExpr', 'CXXFunctionalCastExpr') and n.get('inner'):
+            n = n['inner'][0]
+        return n
+
+    def find_lambda_in(n):
+        if n.get('kind') == 'LambdaExpr':
+            return n
+        for c in n.get('inner', []):
+            if isinstance(c, dict):
+                r = find_lambda_in(c)
+                if r is not None:
+                    return r
+        return None
+
+    def signal_of(n):
+        n = strip(n)
+        if n.get('kind') == 'UnaryOperator' and n.get('opcode') == '&':
+            d = strip(n['inner'][0])
+            if d.get('kind') == 'DeclRefExpr':
+                m = re.search(r'\((\w[\w:]*)::\*\)', n.get('type', {}).get('qualType', ''))
+                return (lowering.short(m.group(1)) if m else '?', d['referencedDecl'].get('name'))
+        return None
+
+    def is_q(n):
+        n = strip(n)
+        return (n.get('kind') == 'DeclRefExpr' and n['referencedDecl'].get('name') == 'q') or (n.get('kind') == 'MemberExpr' and n.get('name') == 'q')
+
+    roles = {}
+    for st in body.get('inner', []):
+        e = strip(st)
+        lam = find_lambda_in(st)
+        if lam is None:
+            continue
+        idx = next(i for i, l in enumerate(lambdas) if l is lam)
+        role, what = 'other', 'a slot the unit has no premise for'
+        if e.get('kind') == 'CXXMemberCallExpr':
+            me = strip(e['inner'][0])
+            tb = strip(me['inner'][0]) if me.get('inner') else {}
+            if me.get('name') == 'callOnTimeout' and tb.get('kind') == 'MemberExpr' and tb.get('name') == 'pingTimer':
+                role, what = 'timeout', 'slot of pingTimer.timeout'
+            elif me.get('name') == 'callOnTimeout' and tb.get('kind') == 'MemberExpr':
+                what = 'slot of %s.timeout' % tb.get('name')
+        elif e.get('kind') == 'CallExpr' and e['inner'][0] is not None:
+            callee = strip(e['inner'][0])
+            args = e['inner'][1:]
+            if callee.get('kind') == 'DeclRefExpr' and callee['referencedDecl'].get('name') == 'connect' and len(args) >= 3:
+                sig = signal_of(args[1])
+                if sig == ('QXmppOutgoingClient', 'connected') and is_q(args[0]):
+                    role, what = 'connected', 'slot of QXmppOutgoingClient::connected'
+                elif sig == ('QXmppOutgoingClient', 'disconnected') and is_q(args[0]):
+                    role, what = 'disconnected', 'slot of QXmppOutgoingClient::disconnected'
+                elif sig:
+                    what = 'slot of %s::%s' % sig
+        roles[idx] = (role, what)
+    if sorted(roles) != list(range(len(lambdas))):
+        raise Unsupported('PingManager constructor: a lambda is not wired by a top-level callOnTimeout / connect statement (restructured code)')
+    return [(i, roles[i][0], roles[i][1]) for i in sorted(roles)]
+
+
+def timer_inventory():
+    """closed world of the keep-alive timers (DESIGN 5.7): every use of PingManager::pingTimer / timeoutTimer and every caller of
+    sendPing in the client's TU.  A use inside a function under contract is judged by that contract; the constructor body may
+    only wire the timers; anything else (a new function that starts a timer, a new caller of sendPing) -> ToolError (exit 2)."""
+    docs, _ = astx.dump(path(OC), 'PingManager')
+    docs2, _ = astx.dump(path(OC), 'QXmppOutgoingClient::')
+    sites = []
+
+    def walk(n, fn, lam):
+        if n.get('kind') == 'CXXMemberCallExpr':
+            me = n['inner'][0]
+            while me.get('kind') in ('ImplicitCastExpr', 'ParenExpr'):
+                me = me['inner'][0]
+            if me.get('kind') == 'MemberExpr':
+                if me.get('name') == 'sendPing':
+                    sites.append((fn, lam, 'this', 'sendPing'))
+                base = me.get('inner', [{}])[0]
+                while base.get('kind') in ('ImplicitCastExpr', 'ParenExpr'):
+                    base = base['inner'][0]
+                if base.get('kind') == 'MemberExpr' and base.get('name') in PING_MEMBERS:
+                    sites.append((fn, lam, base['name'], me.get('name')))
+        elif n.get('kind') == 'MemberExpr' and n.get('name') in PING_MEMBERS:
+            sites.append((fn, lam, n['name'], '<use>'))
+        for c in n.get('inner', []):
+            if isinstance(c, dict):
+                if c.get('kind') == 'LambdaExpr':
+                    for b_ in [x for x in c.get('inner', []) if x.get('kind') == 'CompoundStmt']:
+                        walk(b_, fn, True)
+                    continue
+                if c.get('kind') == 'CXXCtorInitializer':
+                    continue   # pingTimer(new QTimer(q)): creation, not a use
+                walk(c, fn, lam)
+    seen_ids = set()
+    for d in list(docs) + list(docs2):
+        if d.get('kind') in ('CXXMethodDecl', 'CXXConstructorDecl', 'CXXDestructorDecl') and astx.has_body(d) and d.get('id') not in seen_ids:
+            seen_ids.add(d.get('id'))
+            walk(d, d.get('name'), False)
+    # a `<use>` entry directly below a recorded call is the same site: keep calls, and bare uses that are not part of a call
+    calls = {(f, l, m) for f, l, m, k in sites if k != '<use>'}
+    sites = sorted(set(x for x in sites if x[3] != '<use>' or (x[0], x[1], x[2]) not in calls))
+    bad = []
+    for fn, lam, member, method in sites:
+        if (fn, lam) in PING_VERIFIED:
+            continue
+        if fn == 'PingManager' and not lam and (member, method) in CTOR_BODY_OK:
+            continue
+        bad.append((fn, lam, member, method))
+    others = []
+    pat = re.compile(r'\b(pingTimer|timeoutTimer|sendPing)\b')
+    for root, _, files in os.walk(path('src')):
+        for f in files:
+            if not f.endswith(('.cpp', '.h')):
+                continue
+            p = os.path.join(root, f)
+            if os.path.realpath(p) == os.path.realpath(path(OC)) or f == 'QXmppOutgoingClient_p.h':
+                continue
+            if pat.search(open(p, errors='replace').read()):
+                others.append(os.path.relpath(p, configure.REPO))
+    if bad or others:
+        raise ToolError('keep-alive timer inventory: the ping/timeout timer or sendPing is used from a place the unit does not cover: %s %s' % (bad, others))
+    return sites
+
+
 VERIFIED_CALLERS = {'handleStream', 'handleStreamFeatures'}
 # continuations registered by the guarded steps themselves (they run after the step's precondition tls_ok was established)
 CONTINUATION_CALLERS = {'startSasl2Auth', 'startNonSaslAuth', 'startSmResume', 'startSmEnable', 'startResourceBinding'}
@@ -153,7 +305,7 @@ CONTINUATION_CALLERS = {'startSasl2Auth', 'startNonSaslAuth', 'startSmResume', '
 def build(work, tier):
     jobs = [(path(OC), 'QXmppOutgoingClient::'), (path(OC), 'QXmppOutgoingClientPrivate'), (path(OC), 'StarttlsManager'), (path(OC), 'XmppSocket'),
             (path(CONF), 'QXmppConfiguration'), (path(FEAT), 'QXmppStreamFeatures'), (path(STREAM), 'StarttlsProceed::fromDom'),
-            (path(OC), 'HandleElementResult'), (path(OC), 'StreamSecurityMode'), (path(OC), 'QXmppOutgoingClient')]
+            (path(OC), 'HandleElementResult'), (path(OC), 'PingManager'), (path(OC), 'StreamSecurityMode'), (path(OC), 'QXmppOutgoingClient')]
     prewarm(jobs)
     # ------------------------------------------------------------------ the listener variant, from the real field type
     fields, _ = ctx.record_fields(path(OC), 'QXmppOutgoingClientPrivate', 'QXmppOutgoingClientPrivate')
@@ -174,33 +326,41 @@ def build(work, tier):
     ]
     b = Builder('C04', work, prof)
     common = rd('common_requires.inc').strip()
+    ping_common = rd('ping_common.inc').strip()
 
     def spec(fname):
-        return Spec(b.subst(rd(fname).replace('@COMMON@', common)))
+        return Spec(b.subst(rd(fname).replace('@COMMON@', common).replace('@PING_COMMON@', ping_common)))
 
     # ------------------------------------------------------------------ records (field lists from the real classes)
     recs = []
     for src, filt, cls in ((OC, 'QXmppOutgoingClientPrivate', 'QXmppOutgoingClientPrivate'), (OC, 'QXmppOutgoingClient', 'QXmppOutgoingClient'),
-                           (OC, 'XmppSocket', 'XmppSocket'), (OC, 'StarttlsManager', 'StarttlsManager'),
+                           (OC, 'XmppSocket', 'XmppSocket'), (OC, 'StarttlsManager', 'StarttlsManager'), (OC, 'PingManager', 'PingManager'),
                            (CONF, 'QXmppConfiguration', 'QXmppConfigurationPrivate'), (CONF, 'QXmppConfiguration', 'QXmppConfiguration'),
                            (FEAT, 'QXmppStreamFeatures', 'QXmppStreamFeaturesPrivate'), (FEAT, 'QXmppStreamFeatures', 'QXmppStreamFeatures')):
         text, names = ctx.emit_record(path(src), filt, cls, cls, prof, opaque_ok=True)
         recs.append((cls, text, names))
-    need = {'QXmppOutgoingClientPrivate': ['config', 'socket', 'listener', 'streamId', 'streamFrom', 'streamVersion', 'bindModeAvailable', 'c2sStreamManager', 'csiManager', 'pingManager'],
+    need = {'QXmppOutgoingClientPrivate': ['config', 'socket', 'listener', 'streamId', 'streamFrom', 'streamVersion', 'bindModeAvailable', 'c2sStreamManager', 'csiManager', 'pingManager', 'q', 'sessionStarted', 'streamAckManager', 'iqManager'],
+            'PingManager': ['q', 'pingTimer', 'timeoutTimer'],
             'QXmppOutgoingClient': ['d'], 'XmppSocket': ['m_socket'], 'StarttlsManager': ['m_promise'],
-            'QXmppConfigurationPrivate': ['streamSecurityMode', 'useSasl2Authentication', 'useSASLAuthentication', 'useNonSASLAuthentication'],
+            'QXmppConfigurationPrivate': ['streamSecurityMode', 'useSasl2Authentication', 'useSASLAuthentication', 'useNonSASLAuthentication', 'keepAliveInterval', 'keepAliveTimeout', 'domain'],
             'QXmppConfiguration': ['d'], 'QXmppStreamFeaturesPrivate': ['tlsMode', 'bindMode', 'nonSaslAuthMode', 'authMechanisms', 'sasl2Feature'], 'QXmppStreamFeatures': ['d']}
     for cls, text, names in recs:
         for f in need[cls]:
             if not re.search(r'\b%s;' % f, text):
                 raise Unsupported('record %s: member %s missing or of an unmodelled type (renamed/restructured code)' % (cls, f))
-    order = ['QXmppConfigurationPrivate', 'QXmppConfiguration', 'QXmppStreamFeaturesPrivate', 'QXmppStreamFeatures', 'XmppSocket', 'StarttlsManager']
+    order = ['QXmppConfigurationPrivate', 'QXmppConfiguration', 'QXmppStreamFeaturesPrivate', 'QXmppStreamFeatures', 'XmppSocket', 'StarttlsManager', 'PingManager']
     rec_text = {cls: text for cls, text, _ in recs}
     lstruct, ldefs = listener_model(alts, prof)
     sec_defs, _ = enum_defines('SEC', path(OC), 'StreamSecurityMode')
     her_defs, her = enum_defines('HER', path(OC), 'HandleElementResult')
     records = '\n'.join(['typedef struct QXmppOutgoingClient QXmppOutgoingClient;'] + [rec_text[c] for c in order] +
                         [lstruct, ldefs, listener_setters(alts), rec_text['QXmppOutgoingClientPrivate'], rec_text['QXmppOutgoingClient'], sec_defs, her_defs])
+    # type invariant of the private object: its enum-typed members hold declared enumerators (generated from the class definition)
+    inv, inv_fields = ctx.enum_field_invariant(path(OC), 'QXmppOutgoingClientPrivate', 'QXmppOutgoingClientPrivate')
+    for fld in inv_fields:
+        if not re.search(r'\b%s;' % fld, rec_text['QXmppOutgoingClientPrivate']):
+            raise Unsupported('enum member %s of QXmppOutgoingClientPrivate is not mirrored in the record' % fld)
+    records += '\n#define QXmppOutgoingClientPrivate_ENUMS_VALID(p) (' + inv.replace('%s', 'p') + ')\n'
 
     # ------------------------------------------------------------------ lowering of the real functions
     L = C04Lowerer
@@ -238,6 +398,33 @@ def build(work, tier):
         astx.find_function = orig
     b.functions[-1]['function'] = 'QXmppOutgoingClient::handleStarttls::<lambda#0> (continuation on <proceed/>)'
     specs['handleStarttls_cont0'] = sp
+    # ---- the keep-alive sender (XEP-0199), outside the negotiation code
+    low(OC, 'PingManager', 'onDataReceived', 'PingManager_onDataReceived', 'PingManager', 'ping_onDataReceived.spec')
+    lw_ping = low(OC, 'PingManager', 'sendPing', 'PingManager_sendPing', 'PingManager', 'ping_sendPing.spec')
+    low(OC, 'QXmppOutgoingClient::', 'throwKeepAliveError', 'QXmppOutgoingClient_throwKeepAliveError', 'QXmppOutgoingClient', 'throwKeepAliveError.spec')
+    ctor = astx.find_function(path(OC), 'PingManager', 'PingManager')
+    slots = ping_ctor_slots(ctor)
+    ping_slot_proofs = []
+    for ordinal, role, what in slots:
+        specfile, base = {'timeout': ('ping_timeout_slot.spec', 'PingManager_timeout_slot'), 'connected': ('ping_connected_slot.spec', 'PingManager_connected_slot'),
+                          'disconnected': ('ping_disconnected_slot.spec', 'PingManager_disconnected_slot')}.get(role, ('ping_other_slot.spec', 'PingManager_other_slot%d' % ordinal))
+        cname = base
+        if cname in lowered:
+            raise Unsupported('two slots of the PingManager constructor have the role %s (restructured code)' % role)
+        lam = find_lambda(ctor, ordinal)
+        sp = spec(specfile)
+        orig = astx.find_function
+        astx.find_function = lambda *a, **k: lam
+        try:
+            lowered[cname] = b.lower(Target(OC, 'PingManager', 'operator()', cname, this='PingManager', lowerer_cls=L), sp)
+        finally:
+            astx.find_function = orig
+        b.functions[-1]['function'] = 'PingManager::PingManager::<lambda#%d> (%s)' % (ordinal, what)
+        specs[cname] = sp
+        ping_slot_proofs.append((cname, role, what))
+    for g in ('domain', 'keepAliveTimeout', 'keepAliveInterval'):
+        low(CONF, 'QXmppConfiguration', g, 'QXmppConfiguration_' + g, 'QXmppConfiguration')
+    timer_sites = timer_inventory()
     # real helpers, verified inline with their callers (no contract of their own)
     low(OC, 'QXmppOutgoingClient::', 'socket', 'QXmppOutgoingClient_socket', 'QXmppOutgoingClient')
     low(OC, 'QXmppOutgoingClient::', 'configuration', 'QXmppOutgoingClient_configuration', 'QXmppOutgoingClient')
@@ -259,12 +446,15 @@ def build(work, tier):
     # ------------------------------------------------------------------ assemble one C file
     payload = sorted(set().union(*[getattr(x, 'need_payload', set()) for x in [lw_starttls, lw_start]]))
     payload_defs = '\n'.join('#define XML_%s %d' % (t, i + 1) for i, t in enumerate(payload))
+    stanzas = sorted(getattr(lw_ping, 'need_stanza', set()) | {'QXmppPingIq'})
+    payload_defs += '\n' + '\n'.join('#define STANZA_%s %d' % (t, 100 + i) for i, t in enumerate(stanzas))
     conts = '\n'.join('#define CONT_%s_0 %d' % (c, i + 1) for i, c in enumerate(['QXmppOutgoingClient_handleStarttls', 'QXmppOutgoingClient_handleStreamFeatures']))
     helpers = ['QXmppOutgoingClient_streamAckManager', 'QXmppOutgoingClient_iqManager', 'QXmppStreamFeatures_isStreamFeatures', 'QXmppOutgoingClient_socket', 'QXmppOutgoingClient_configuration', 'XmppSocket_socket', 'QXmppOutgoingClient_disconnectFromHost', 'StarttlsProceed_fromDom'] + \
-              ['QXmppConfiguration_' + g for g in ('streamSecurityMode', 'useNonSASLAuthentication', 'useSASLAuthentication', 'useSasl2Authentication')] + \
+              ['QXmppConfiguration_' + g for g in ('streamSecurityMode', 'useNonSASLAuthentication', 'useSASLAuthentication', 'useSasl2Authentication', 'domain', 'keepAliveTimeout', 'keepAliveInterval')] + \
               ['QXmppStreamFeatures_' + g for g in ('tlsMode', 'nonSaslAuthMode', 'bindMode', 'authMechanisms', 'sasl2Feature')]
     main_fns = ['StarttlsManager_handleElement', 'QXmppOutgoingClient_handleStarttls', 'QXmppOutgoingClient_handleStreamFeatures', 'QXmppOutgoingClient_handleStream',
-                'QXmppOutgoingClient_handleElement', 'QXmppOutgoingClient_handlePacketReceived', 'QXmppOutgoingClient_handleStart', 'handleStarttls_cont0']
+                'QXmppOutgoingClient_handleElement', 'QXmppOutgoingClient_handlePacketReceived', 'QXmppOutgoingClient_handleStart', 'handleStarttls_cont0',
+                'PingManager_onDataReceived', 'PingManager_sendPing'] + [c for c, _, _ in ping_slot_proofs] + ['QXmppOutgoingClient_throwKeepAliveError']
     protos = '\n'.join(lowered[f].split('\n')[0] + ';' for f in main_fns + helpers)
     ctxt = b.context()
     # the same enum / namespace constant may be needed by functions of several TUs: emit each definition once
@@ -282,8 +472,12 @@ void h_handlePacketReceived(void) { gh_init(); QXmppOutgoingClient *self; qdom e
 void h_handleElement(void) { gh_init(); QXmppOutgoingClient *self; qdom el; QXmppOutgoingClient_handleElement(self, el); }
 void h_handleStart(void) { gh_init(); QXmppOutgoingClient *self; QXmppOutgoingClient_handleStart(self); }
 void h_starttls_cont(void) { gh_init(); QXmppOutgoingClient *self; handleStarttls_cont0(self); }
+void h_ping_onDataReceived(void) { gh_init(); PingManager *self; PingManager_onDataReceived(self); }
+void h_ping_sendPing(void) { gh_init(); PingManager *self; PingManager_sendPing(self); }
+void h_throwKeepAliveError(void) { gh_init(); QXmppOutgoingClient *self; QXmppOutgoingClient_throwKeepAliveError(self); }
 void h_starttls_handleElement(void) { gh_init(); StarttlsManager *self; qdom el; StarttlsManager_handleElement(self, el); }
 '''
+    harness += ''.join('void h_%s(void) { gh_init(); const PingManager *self; %s(self); }\n' % (c_, c_) for c_, _, _ in ping_slot_proofs)
     c = '\n'.join(['#include "opaque.h"', prof.literal_ids.table(), rd('model.h'), records, ctxt, payload_defs, conts, b.subst(rd('callees.h')),
                    protos, body, harness])
     f = b.write('c04.c', c)
@@ -292,7 +486,7 @@ void h_starttls_handleElement(void) { gh_init(); StarttlsManager *self; qdom el;
              'setListener_StarttlsManager', 'setListener_SaslManager'] + ['QXmppOutgoingClient_' + g for g in GUARDED] + ['SaslManager_authenticate'] + \
             [m + '_handleElement' for m in ('NonSaslAuthManager', 'SaslManager', 'Sasl2Manager', 'BindManager', 'C2sStreamManager')] + \
             ['C2sStreamManager_onStreamClosed', 'C2sStreamManager_onStreamStart', 'C2sStreamManager_onStreamFeatures', 'C2sStreamManager_canRequestResume', 'C2sStreamManager_canRequestEnable',
-             'CsiManager_onStreamFeatures', 'PingManager_onDataReceived', 'StreamAckManager_handleStanza', 'OutgoingIqManager_handleStanza',
+             'CsiManager_onStreamFeatures', 'StreamAckManager_handleStanza', 'StreamAckManager_enabled', 'StreamAckManager_sendAcknowledgementRequest', 'StreamAckManager_send_stanza', 'OutgoingIqManager_handleStanza',
              'QXmppStreamFeatures_parse', 'StreamErrorElement_fromDom', 'QXmppOutgoingClient_handleStreamError', 'QXmppOutgoingClient_elementReceived',
              'QXmppOutgoingClient_handleStanza']
 
@@ -331,10 +525,23 @@ void h_starttls_handleElement(void) { gh_init(); StarttlsManager *self; qdom el;
           stubs + ['StarttlsManager_handleElement', 'QXmppOutgoingClient_handleElement'],
           note='loop-free; std::visit over the listener variant lowered to a switch; listeners replaced by contracts')
 
+    proof('ping.onDataReceived', 'h_ping_onDataReceived', 'PingManager_onDataReceived', stubs,
+          note='loop-free; every timer / session / configuration state: received data never arms the ping timer outside an open session')
+    proof('ping.sendPing', 'h_ping_sendPing', 'PingManager_sendPing', stubs,
+          note='loop-free; reached only from the armed ping timer; StreamAckManager::send asserts tls_ok at its call site')
+    for cname, role, what in ping_slot_proofs:
+        proof('ping.slot.' + cname[len('PingManager_'):], 'h_' + cname, cname, stubs + (['PingManager_sendPing'] if role == 'timeout' else []),
+              note='loop-free; lambda of the PingManager constructor wired as ' + what + {
+                  'timeout': ' -- the only caller of sendPing (inventory); sendPing replaced by its verified contract',
+                  'connected': ' -- the only place that arms the ping timer; connected() is emitted with the session started (C10)',
+                  'disconnected': ' -- session end disarms both timers'}.get(role, ' -- a slot of any other signal must not arm the ping timer outside an open session and transmits nothing'))
+    proof('throwKeepAliveError', 'h_throwKeepAliveError', 'QXmppOutgoingClient_throwKeepAliveError', stubs,
+          note='loop-free; slot of the keep-alive timeout timer: error + disconnect, nothing transmitted')
+
     native_note = ''
     if tier == 'thorough':
         res = []
-        for fid, mode in ((FINDING, 'versionless'), (FINDING2, 'iq-before-tls'), ('control', 'control')):
+        for fid, mode in ((FINDING, 'versionless'), (FINDING2, 'iq-before-tls'), ('control', 'control'), ('keep-alive', 'keepalive-stall')):
             rc, out = _run_script(mode)
             res.append('%s/%s: %s' % (fid, mode, 'REPRODUCED' if (rc == 0 and 'NOT-REPRODUCED' not in out) else ('NOT-REPRODUCED' if rc == 1 else 'replay failed')))
         native_note = '; native replay against the real library: ' + ', '.join(res)
@@ -343,7 +550,8 @@ void h_starttls_handleElement(void) { gh_init(); StarttlsManager *self; qdom el;
         'proofs': proofs, 'functions': b.functions, 'dropped': b.dropped, 'fired': b.fired,
         'hooks': [h['id'] + ': ' + h['emit'] for h in prof.hooks] + ['visit_result: gh_visit_result = <result of std::visit> (emitted by the visit lowering)'],
         'assumed': ASSUMED, 'assumes': scan_assumes(unit_text), 'not_covered': NOT_COVERED,
-        'explanation': 'call-site inventory of the guarded callees: %s' % ', '.join('%s%s->%s' % (s[0], '[continuation]' if s[1] else '', s[2]) for s in sites) + native_note,
+        'explanation': 'call-site inventory of the guarded callees: %s' % ', '.join('%s%s->%s' % (s[0], '[continuation]' if s[1] else '', s[2]) for s in sites) +
+                       '; keep-alive timer inventory: %s' % ', '.join('%s%s: %s.%s' % (t[0], '[lambda]' if t[1] else '', t[2], t[3]) for t in timer_sites) + native_note,
     }
 
 
@@ -354,6 +562,11 @@ ASSUMED = [
     'setListener<T>() installs alternative T as current listener and returns it (two-line template in QXmppOutgoingClient_p.h, replaced by contract); StarttlsManager::task() returns the task of its promise',
     'C2sStreamManager::{onStreamClosed,onStreamStart,onStreamFeatures,canRequestResume,canRequestEnable}, CsiManager::onStreamFeatures, PingManager::onDataReceived, setError, handleStreamError, QXmppStreamFeatures::parse, StreamErrorElement::fromDom transmit nothing (contracts that assign their own state / the error and disconnect counters only)',
     'StreamAckManager::handleStanza transmits at most stream-management <a/> nonzas (no stanza, no credential); OutgoingIqManager::handleStanza only completes a pending request (its continuation belongs to the requester)',
+    'A-QTIMER (units/C04/model.h): a QTimer is armed only by start() and disarmed by stop(); its timeout slot runs only while it is armed; a new QTimer is not armed; interval values are abstracted',
+    'A-SIGNAL + unit C10: the slot wired to QXmppOutgoingClient::connected runs only when openSession emits connected(), which C10 proves happens with d->sessionStarted set (and C10 inventories every writer of sessionStarted and every emit site); closeSession clears sessionStarted and emits disconnected(), whose slot disarms both timers; the roles of the constructor lambdas are read from the connect()/callOnTimeout() statements of the real constructor on every run',
+    'a session is open only under tls_ok (SESSION_INV): openSession requires tls_ok, and tls_ok is stable while the session lasts (same stability assumption as for continuations)',
+    'StreamAckManager::send(QXmppPacket) puts one stanza on the wire (contract requires tls_ok; what is sent is classified by the C++ type of the stanza object); StreamAckManager::sendAcknowledgementRequest writes an <r/> nonza (no stanza, not counted); StreamAckManager::enabled is a pure getter',
+    'guarded listeners may run the continuation of their step synchronously, i.e. may call openSession (session started, ping timer armed): their contracts assign sessionStarted and the ping timer and keep PING_INV',
     'abstract DOM and opaque strings (qtmodel/opaque.h); QStringList as an opaque value with 0 = empty; std::optional / std::variant values as tagged structs',
     'tls_ok is stable between the start of a guarded step and the run of the continuation it registered (encryption is not switched off on a live connection; the configuration is not changed during negotiation); handleStart runs before anything is received on a (re)started stream',
 ]
@@ -364,6 +577,10 @@ NOT_COVERED = [
     'the continuation of SaslManager::authenticate in handleStreamFeatures (restarts the stream on success, disconnects on failure) is registered but not verified',
     'the bare JID disclosed in the from attribute of the initial stream header (sent before TLS by design of handleStart; observed in the native replay)',
     'LegacySSL / direct-TLS connections (encrypted from the first byte); reconnect / redirect logic',
+    'other senders outside the negotiation code that have no gate of their own: QXmppClient::send / sendSensitive / sendPacket / reply and QXmppClient::sendIq hand packets straight to StreamAckManager::send (no session or TLS check; before the session they are written to whatever the socket is) -- application- and extension-driven (extensions are not invoked before TLS since the C04-F2 gate, but an extension acting on its own timer or on a user action is not stopped)',
+    'StreamAckManager::send / sendAcknowledgement / sendAcknowledgementRequest themselves check nothing (every caller has to); C2sStreamManager resends unacknowledged stanzas on <resumed/> (reached only through the guarded C2sStreamManager listener)',
+    'timer-driven code elsewhere: QXmppClient reconnectionTimer (reconnects, sends nothing itself), QXmppAttentionManager cleanUpTimer (no sending), QXmppRemoteMethod 30 s timeout (no sending), call / transfer / ICE managers (timers drive peer-to-peer traffic and Jingle stanzas through QXmppClient::send, no gate of their own); CsiManager::sendState is gated by isAuthenticated()',
+    'the constructor body of PingManager (setSingleShot, callOnTimeout(throwKeepAliveError)) is only inventoried, not under contract; that the timeout timer is single-shot is not checked',
 ]
 
 
@@ -374,9 +591,11 @@ SCRIPTS = {
     'QXmppOutgoingClient_handleElement': ['iq-before-tls', 'features-starttls', 'features-nostarttls'],
     'QXmppOutgoingClient_handleStarttls': ['features-starttls', 'features-nostarttls'],
     'QXmppOutgoingClient_handleStreamFeatures': ['features-starttls', 'features-nostarttls'],
-    'QXmppOutgoingClient_handlePacketReceived': ['starttls-failure', 'features-starttls', 'features-nostarttls', 'iq-before-tls'],
+    'QXmppOutgoingClient_handlePacketReceived': ['starttls-failure', 'features-starttls', 'features-nostarttls', 'iq-before-tls', 'keepalive-stall'],
     'StarttlsManager_handleElement': ['starttls-failure'],
     'QXmppOutgoingClient_handleStart': ['control'],
+    'PingManager_onDataReceived': ['keepalive-stall'], 'PingManager_sendPing': ['keepalive-stall'], 'PingManager_timeout_slot': ['keepalive-stall'],
+    'PingManager_connected_slot': ['keepalive-stall'], 'PingManager_disconnected_slot': ['keepalive-stall'],
     'handleStarttls_cont0': ['control'],
 }
 _native_cache = {}
